@@ -1,4 +1,5 @@
 import PetgraphModel.Common
+import PetgraphModel.Driver.C07
 import PetgraphModel.Driver.C08
 import PetgraphModel.Driver.C19
 open PetgraphModel
@@ -7,6 +8,7 @@ def main (args : List String) : IO UInt32 := do
   let inp ← IO.getStdin
   let out ← IO.getStdout
   match args with
+  | ["C07"] => driverLoop inp out C07.step {}; return 0
   | ["C08"] => driverLoop inp out C08.step {}; return 0
   | ["C19"] => driverLoop inp out C19.step {}; return 0
   | _ => IO.eprintln "usage: pgmodel <property id>  (protocol lines on stdin)"; return 2
